@@ -4,3 +4,7 @@ set -e
 export CARGO_NET_OFFLINE=true
 cd /verif/hostkit && cargo build --offline
 cd /verif/harness && cargo build --release --offline
+# C20: command-line tool and the macro host (nightly, for -Zunpretty=expanded); both are
+# rebuilt incrementally by the check itself, this only pays the cold cost once
+(cd /repo && cargo build --offline --release -p rasn-compiler --features cli --bin rasn_compiler_cli --target-dir /verif/harness/target/cli) || true
+(cd /verif/macrohost && cargo +nightly rustc --offline --lib -- -Zunpretty=expanded >/dev/null) || true
